@@ -252,6 +252,96 @@ Definition fin_slice (l : lexer) (k : tk) (i j : pos) : option (tk * lexer) :=
 
 Definition is_nil {A} (l : list A) : bool := match l with [] => true | _ => false end.
 
+(* the part of Lex after next() returned the byte ch (not eof); p1 = position after ch *)
+Definition lex_dispatch (l : lexer) (ch : N) (p1 : pos) : option (tk * lexer) :=
+  let pch := mkpos (pred (po p1)) (ch :: pr p1) in              (* l.offset - 1 *)
+  let single := fin l (KChar ch) p1 None false in
+  if isIdent ch false then
+    let '(j, isModule) := scanIdentOrModule p1 in
+    match slice pch j with
+    | None => None
+    | Some t =>
+        if isModule then fin l (KTok "tokModuleIdent") j (Some t) false
+        else match lookup_kw t keywords with
+             | Some k => fin l (KTok k) j (Some t) false
+             | None => fin l (KTok "tokIdent") j (Some t) false
+             end
+    end
+  else if isNumber ch then
+    let '(ok, j) := scanNumber p1 NLead in
+    fin_slice l (if ok then KTok "tokNumber" else KTok "tokInvalid") pch j
+  else if ch =? 46 then                                          (* '.' *)
+    let c := peek p1 in
+    if c =? 46 then
+      match adv p1 with Some p2 => fin l (KTok "tokRecurse") p2 (Some [46; 46]) false | None => None end
+    else if isIdent c false then fin_slice l (KTok "tokIndex") pch (scanIdent p1)
+    else if isNumber c then
+      let '(ok, j) := scanNumber p1 NFloat in
+      fin_slice l (if ok then KTok "tokNumber" else KTok "tokInvalid") pch j
+    else single
+  else if ch =? 36 then                                          (* '$' *)
+    if isIdent (peek p1) false then
+      let '(j, isModule) := scanIdentOrModule p1 in
+      fin_slice l (if isModule then KTok "tokModuleVariable" else KTok "tokVariable") pch j
+    else single
+  else if ch =? 124 then                                         (* '|' *)
+    if peek p1 =? 61 then
+      match adv p1 with Some p2 => fin l (KTok "tokUpdateOp") p2 (Some [124; 61]) false | None => None end
+    else single
+  else if ch =? 63 then                                          (* '?' *)
+    match pr p1 with
+    | c1 :: c2 :: r2 =>
+        if (c1 =? 47) && (c2 =? 47)
+        then fin l (KTok "tokDestAltOp") (mkpos (S (S (po p1))) r2) (Some [63; 47; 47]) false
+        else single
+    | _ => single
+    end
+  else if (ch =? 43) || (ch =? 45) || (ch =? 42) || (ch =? 37) then    (* + - * % *)
+    if peek p1 =? 61 then
+      match adv p1 with Some p2 => fin l (KTok "tokUpdateOp") p2 (Some [ch; 61]) false | None => None end
+    else single
+  else if ch =? 47 then                                          (* '/' *)
+    let c := peek p1 in
+    if c =? 61 then
+      match adv p1 with Some p2 => fin l (KTok "tokUpdateOp") p2 (Some [47; 61]) false | None => None end
+    else if c =? 47 then
+      match adv p1 with
+      | Some p2 =>
+          if peek p2 =? 61 then
+            match adv p2 with Some p3 => fin l (KTok "tokUpdateOp") p3 (Some [47; 47; 61]) false | None => None end
+          else fin l (KTok "tokAltOp") p2 (Some [47; 47]) false
+      | None => None
+      end
+    else single
+  else if ch =? 61 then                                          (* '=' *)
+    if peek p1 =? 61 then
+      match adv p1 with Some p2 => fin l (KTok "tokCompareOp") p2 (Some [61; 61]) false | None => None end
+    else fin l (KTok "tokUpdateOp") p1 (Some [61]) false
+  else if ch =? 33 then                                          (* '!' *)
+    if peek p1 =? 61 then
+      match adv p1 with Some p2 => fin l (KTok "tokCompareOp") p2 (Some [33; 61]) false | None => None end
+    else single
+  else if (ch =? 62) || (ch =? 60) then                          (* '>' '<' *)
+    if peek p1 =? 61 then
+      match adv p1 with Some p2 => fin l (KTok "tokCompareOp") p2 (Some [ch; 61]) false | None => None end
+    else fin l (KTok "tokCompareOp") p1 (Some [ch]) false
+  else if ch =? 64 then                                          (* '@' *)
+    if isIdent (peek p1) true then fin_slice l (KTok "tokFormat") pch (scanIdent p1)
+    else single
+  else if ch =? 34 then                                          (* double quote *)
+    match scanString pch p1 false with
+    | Some (k, p, t, instr) => fin l k p t instr
+    | None => None
+    end
+  else if 128 <=? ch then                                        (* ch >= utf8.RuneSelf *)
+    match utf8_len (ch :: pr p1) with
+    | Some n =>
+        let p2 := mkpos (po p1 + (n - 1)) (skipn (n - 1) (pr p1)) in
+        if (n - 1 <=? List.length (pr p1))%nat then fin_slice l (KChar ch) pch p2 else None
+    | None => fin_slice l (KChar ch) pch p1                        (* RuneError, size 1: the byte itself *)
+    end
+  else single.
+
 (* func (l * lexer) Lex(lval * yySymType) (tokenType int) *)
 Definition Lex (l : lexer) : option (tk * lexer) :=
   let p0 := lp l in
@@ -264,96 +354,7 @@ Definition Lex (l : lexer) : option (tk * lexer) :=
   else
     match next (S (List.length (pr p0))) p0 with
     | None => None
-    | Some (ch, iseof, p1) =>
-        if iseof then fin l KEOF p1 (Some []) false
-        else
-          let pch := mkpos (pred (po p1)) (ch :: pr p1) in              (* l.offset - 1 *)
-          let single := fin l (KChar ch) p1 None false in
-          if isIdent ch false then
-            let '(j, isModule) := scanIdentOrModule p1 in
-            match slice pch j with
-            | None => None
-            | Some t =>
-                if isModule then fin l (KTok "tokModuleIdent") j (Some t) false
-                else match lookup_kw t keywords with
-                     | Some k => fin l (KTok k) j (Some t) false
-                     | None => fin l (KTok "tokIdent") j (Some t) false
-                     end
-            end
-          else if isNumber ch then
-            let '(ok, j) := scanNumber p1 NLead in
-            fin_slice l (if ok then KTok "tokNumber" else KTok "tokInvalid") pch j
-          else if ch =? 46 then                                          (* '.' *)
-            let c := peek p1 in
-            if c =? 46 then
-              match adv p1 with Some p2 => fin l (KTok "tokRecurse") p2 (Some [46; 46]) false | None => None end
-            else if isIdent c false then fin_slice l (KTok "tokIndex") pch (scanIdent p1)
-            else if isNumber c then
-              let '(ok, j) := scanNumber p1 NFloat in
-              fin_slice l (if ok then KTok "tokNumber" else KTok "tokInvalid") pch j
-            else single
-          else if ch =? 36 then                                          (* '$' *)
-            if isIdent (peek p1) false then
-              let '(j, isModule) := scanIdentOrModule p1 in
-              fin_slice l (if isModule then KTok "tokModuleVariable" else KTok "tokVariable") pch j
-            else single
-          else if ch =? 124 then                                         (* '|' *)
-            if peek p1 =? 61 then
-              match adv p1 with Some p2 => fin l (KTok "tokUpdateOp") p2 (Some [124; 61]) false | None => None end
-            else single
-          else if ch =? 63 then                                          (* '?' *)
-            match pr p1 with
-            | c1 :: c2 :: r2 =>
-                if (c1 =? 47) && (c2 =? 47)
-                then fin l (KTok "tokDestAltOp") (mkpos (S (S (po p1))) r2) (Some [63; 47; 47]) false
-                else single
-            | _ => single
-            end
-          else if (ch =? 43) || (ch =? 45) || (ch =? 42) || (ch =? 37) then    (* + - * % *)
-            if peek p1 =? 61 then
-              match adv p1 with Some p2 => fin l (KTok "tokUpdateOp") p2 (Some [ch; 61]) false | None => None end
-            else single
-          else if ch =? 47 then                                          (* '/' *)
-            let c := peek p1 in
-            if c =? 61 then
-              match adv p1 with Some p2 => fin l (KTok "tokUpdateOp") p2 (Some [47; 61]) false | None => None end
-            else if c =? 47 then
-              match adv p1 with
-              | Some p2 =>
-                  if peek p2 =? 61 then
-                    match adv p2 with Some p3 => fin l (KTok "tokUpdateOp") p3 (Some [47; 47; 61]) false | None => None end
-                  else fin l (KTok "tokAltOp") p2 (Some [47; 47]) false
-              | None => None
-              end
-            else single
-          else if ch =? 61 then                                          (* '=' *)
-            if peek p1 =? 61 then
-              match adv p1 with Some p2 => fin l (KTok "tokCompareOp") p2 (Some [61; 61]) false | None => None end
-            else fin l (KTok "tokUpdateOp") p1 (Some [61]) false
-          else if ch =? 33 then                                          (* '!' *)
-            if peek p1 =? 61 then
-              match adv p1 with Some p2 => fin l (KTok "tokCompareOp") p2 (Some [33; 61]) false | None => None end
-            else single
-          else if (ch =? 62) || (ch =? 60) then                          (* '>' '<' *)
-            if peek p1 =? 61 then
-              match adv p1 with Some p2 => fin l (KTok "tokCompareOp") p2 (Some [ch; 61]) false | None => None end
-            else fin l (KTok "tokCompareOp") p1 (Some [ch]) false
-          else if ch =? 64 then                                          (* '@' *)
-            if isIdent (peek p1) true then fin_slice l (KTok "tokFormat") pch (scanIdent p1)
-            else single
-          else if ch =? 34 then                                          (* double quote *)
-            match scanString pch p1 false with
-            | Some (k, p, t, instr) => fin l k p t instr
-            | None => None
-            end
-          else if 128 <=? ch then                                        (* ch >= utf8.RuneSelf *)
-            match utf8_len (ch :: pr p1) with
-            | Some n =>
-                let p2 := mkpos (po p1 + (n - 1)) (skipn (n - 1) (pr p1)) in
-                if (n - 1 <=? List.length (pr p1))%nat then fin_slice l (KChar ch) pch p2 else None
-            | None => fin_slice l (KChar ch) pch p1                        (* RuneError, size 1: the byte itself *)
-            end
-          else single
+    | Some (ch, iseof, p1) => if iseof then fin l KEOF p1 (Some []) false else lex_dispatch l ch p1
     end.
 
 (* func (l * lexer) Error(string): the (Offset, Token) of the ParseError it builds *)
